@@ -246,6 +246,10 @@ class Target:
             self.fresh()
             return ("budget", None), over, peak, None, delivered
         result, exc = value
+        if isinstance(exc, world.Horizon):
+            # the client keeps sending requests in answer to one datagram
+            self.fresh()
+            return ("Horizon", None), None, peak, ("runaway", len(self.sender.calls)), delivered
         if self.kind == "discovery" and any(not e.get("discovery") for e in self.agent.log[-3:] if e.get("raw") in [c[1] for c in self.sender.calls]):
             # the mutated discovery reply was accepted as a (different but
             # well-formed) discovery result and a request was sent after it:
@@ -388,6 +392,139 @@ def family_cases(family, seed, tier, big):
     return out
 
 
+def run_stubborn(acc):
+    """agents that answer *every* datagram of an operation the same way: with
+    a notInTimeWindow / unknownEngineID / wrongDigest report (authenticated or
+    not), with the same malformed datagram, with an empty datagram.  One call
+    may only cause a small, fixed number of requests."""
+    from ..ref import usm as rusm
+
+    kinds = ["report-notInTimeWindows", "report-notInTimeWindows-unauthenticated", "report-unknownEngineIDs", "report-wrongDigests", "report-unknownUserNames", "garbage", "empty", "truncated"]
+    for level in ("noAuthNoPriv:md5", "authNoPriv:md5", "authPriv:sha1"):
+        for kind in kinds:
+            for opname in ("get", "walk"):
+                CLOCK.reset()
+                world.reset_plugins()
+                lv, method = level.split(":")
+                client, sender, ag = world.make_v3({OID: ("str", b"v")}, lv, method)
+                user = list(ag.users.values())[0]
+
+                def hook(agent, req, resp, kind=kind, user=user):
+                    entry = agent.log[-1]
+                    if entry.get("discovery"):
+                        return resp
+                    msg = entry["msg"]
+                    if kind.startswith("report-"):
+                        stat = kind.split("-")[1]
+                        auth_user = user if (user.auth and "unauthenticated" not in kind and stat == "notInTimeWindows") else None
+                        return agent._report(msg, stat, auth_user, entry.get("pdu", {}).get("request_id", 0))
+                    if kind == "garbage":
+                        return b"\x30\x82\x00\x10garbage-garbage!"
+                    if kind == "empty":
+                        return b""
+                    return resp[: len(resp) // 2]
+
+                ag.bytes_hook = hook
+                sender.limit = 12
+                op = ("get", OID) if opname == "get" else ("walk", OID[:-2])
+
+                def call():
+                    try:
+                        return ops.run_op(client, op)
+                    except world.Horizon as hz:
+                        return None, hz
+
+                value, over = budget.run(call, 2.0)
+                nreq = len(sender.calls)
+                facts = {"family": "stubborn", "level": level, "agent_answers_always": kind, "op": opname, "requests": nreq}
+                violations = []
+                if over is not None:
+                    facts["indefinite_length_octet"] = False
+                    facts["in_x690"] = any("x690/" in f for f in over.frames[:3])
+                    violations.append({"kind": "processing-exceeds-cpu-budget", "detail": {**facts, "frames": over.frames[:6]}, "facts": facts})
+                elif isinstance(value[1], world.Horizon) or nreq > 6:
+                    violations.append({"kind": "client-keeps-sending-requests", "detail": {**facts, "exception": ops.exc_sig(value[1])}, "facts": facts})
+                acc.count(evaluations=1, nontrivial=1)
+                acc.outcome("stubborn/%s" % (ops.exc_sig(value[1]) if over is None else "budget"))
+                for v in violations:
+                    v["case"] = {"stubborn": [level, kind, opname]}
+                    acc.violation(v)
+    acc.sample({"family": "stubborn agents", "answers": kinds})
+
+
+def run_retention(acc):
+    """memory *retained* after many refused datagrams (module-level caches):
+    N forged responses, each naming another engine id / user / community; the
+    retained growth must not scale with N"""
+    import gc as _gc
+
+    def measure(n, level):
+        CLOCK.reset()
+        world.reset_plugins()
+        lv, method = level.split(":")
+        if lv == "v2c":
+            from puresnmp.credentials import V2C
+
+            ag = ragent.Agent({OID: ("str", b"v")})
+            client, sender = world.make_client(V2C("public"), ag.handle)
+        else:
+            client, sender, ag = world.make_v3({OID: ("str", b"v")}, lv, method)
+        ops.run_op(client, ("get", OID))
+        counter = {"i": 0}
+
+        def hook(agent, req, resp):
+            entry = agent.log[-1]
+            if entry.get("discovery") or not counter.get("armed"):
+                return resp
+            counter["i"] += 1
+            i = counter["i"]
+            if lv == "v2c":
+                return snmp.community_msg_node(1, b"c%06d" % i + bytes(200), snmp.pdu_node(snmp.PDU_RESPONSE, 1, 0, 0, [])).encode()
+            msg = entry["msg"]
+            eid = b"\x80\x00\x1f\x88\x05" + i.to_bytes(4, "big") + bytes(2000)
+            uname = msg["usm"]["user"] if i % 2 else b"u%06d" % i
+            sp = snmp.usm_params_node(eid, 7, 1000, uname, b"\x11" * 12 if msg["flags"] & 1 else b"", b"")
+            pdu = snmp.pdu_node(snmp.PDU_RESPONSE, msg["msg_id"], 0, 0, [])
+            return snmp.v3_msg_node(msg["msg_id"], 65507, msg["flags"] & 1, 3, sp.encode(), snmp.scoped_pdu_node(eid, b"", pdu)).encode()
+
+        ag.bytes_hook = hook
+        _gc.collect()
+        tracemalloc.start()
+        base = tracemalloc.get_traced_memory()[0]
+        counter["armed"] = True
+        for _ in range(n):
+            del ag.log[:]
+            sender.calls = []
+            ops.run_op(client, ("get", OID))
+        counter["armed"] = False
+        del ag.log[:]
+        sender.calls = []
+        del world.LOGCAP.records[:]
+        _gc.collect()
+        kept = tracemalloc.get_traced_memory()[0] - base
+        tracemalloc.stop()
+        ok_after = ops.run_op(client, ("get", OID))
+        return kept, ok_after
+
+    for level in ("v2c:-", "noAuthNoPriv:md5", "authNoPriv:md5", "authPriv:sha1"):
+        k1, _ = measure(40, level)
+        k2, after = measure(240, level)
+        growth = k2 - k1
+        facts = {"family": "retention", "level": level, "retained_after_40": k1, "retained_after_240": k2}
+        acc.count(evaluations=2, nontrivial=2)
+        violations = []
+        if growth > 64 * 1024:
+            violations.append({"kind": "memory-retained-per-refused-datagram", "detail": {**facts, "growth_for_200_more_datagrams": growth}, "facts": facts})
+        if after[1] is not None:
+            violations.append({"kind": "client-unusable-after-malformed-datagram", "detail": {**facts, "follow_up_exception": ops.exc_sig(after[1])}, "facts": facts})
+        acc.outcome("retention/%s" % ("ok" if not violations else violations[0]["kind"]))
+        acc.maxi("max_retained_growth_bytes", growth)
+        for v in violations:
+            v["case"] = {"retention": level}
+            acc.violation(v)
+    acc.sample({"family": "retention", "datagrams": [40, 240]})
+
+
 def shards(tier):
     names = QUICK_SEEDS if tier == "quick" else list(SEEDS)
     out = []
@@ -407,12 +544,20 @@ def shards(tier):
                 out.append({"tier": tier, "seed": name, "family": fam, "part": 0, "of": 1})
     for name in ("v2c-get1", "v3noauth-get1", "v2c-trap"):
         out.append({"tier": tier, "seed": name, "family": "nesting", "part": 0, "of": 1})
+    out.append({"tier": tier, "special": "stubborn"})
+    out.append({"tier": tier, "special": "retention"})
     return out
 
 
 def run_shard(params, acc):
     import resource
 
+    if params.get("special") == "stubborn":
+        run_stubborn(acc)
+        return
+    if params.get("special") == "retention":
+        run_retention(acc)
+        return
     try:
         resource.setrlimit(resource.RLIMIT_AS, (6 << 30, 6 << 30))
     except (ValueError, OSError):
@@ -446,7 +591,9 @@ def run_shard(params, acc):
             if peak is not None and peak > baseline + mem_budget(n):
                 facts["indefinite_length_octet"] = bool(delivered) and has_indefinite_header(delivered)
                 violations.append({"kind": "allocation-exceeds-memory-budget", "detail": {**facts, "peak": peak, "baseline": baseline, "budget": baseline + mem_budget(n)}, "facts": facts})
-            if follow is not None and not follow[0]:
+            if follow is not None and follow[0] == "runaway":
+                violations.append({"kind": "client-keeps-sending-requests", "detail": {**facts, "requests": follow[1]}, "facts": facts})
+            elif follow is not None and not follow[0]:
                 violations.append({"kind": "client-unusable-after-malformed-datagram", "detail": {**facts, "follow_up_exception": follow[1]}, "facts": facts})
         acc.count(evaluations=1, nontrivial=1)
         acc.outcome(str(outcome[0]) if over is None else "budget")
@@ -463,6 +610,19 @@ def run_shard(params, acc):
 
 
 def replay(case):
+    if "stubborn" in case or "retention" in case:
+        class A:
+            def __init__(self):
+                self.v = []
+                self.extra = {}
+            def count(self, **k): pass
+            def outcome(self, *a, **k): pass
+            def sample(self, *a, **k): pass
+            def maxi(self, *a, **k): pass
+            def violation(self, v): self.v.append(v)
+        a = A()
+        (run_stubborn if "stubborn" in case else run_retention)(a)
+        return [v for v in a.v if v["case"] == case]
     target = Target(case["seed"])
     seed = target.seed()
     label = tuple(case["label"])
